@@ -44,6 +44,8 @@ def same_id_in_two_locations(c, k):
     return any(len(v) > 1 for v in seen.values())
 
 KNOWN = [
+    # finding C05-repeated-var-structured seen through a rule's `when` pattern: the real matcher's answer for this event is not a function of its inputs
+    ("doc:C05-repeated-var-structured", lambda c, k, op, mo, io: op["op"] in ("event", "searchRules") and any(repeated_var_structured(p, op["event"]) for p in rule_patterns(c, k))),
     # documented behaviour, not a finding: a rule id present both in a location and in one of its ancestors is the duplicate-id error
     ("doc:duplicate-id-across-ancestors", lambda c, k, op, mo, io: op["op"] in ("event", "searchRules") and isinstance(io, dict) and io.get("err") == "dupId" and same_id_in_two_locations(c, k)),
     ("C01-diamond-ancestor-duplicate-id", lambda c, k, op, mo, io: op["op"] in ("event", "searchRules") and isinstance(io, dict) and io.get("err") == "dupId" and "d" in c["locs"]),
@@ -81,6 +83,12 @@ def gen_case(rng, thorough, inside):
             if rng.random() < 0.07:
                 rule = {"schedule": "+1h", "action": action(rng, 0)}   # scheduled rules are never dispatched for events
             ops.append({"op": "addRule", "loc": loc, "id": rng.choice(RIDS), "rule": rule})
+            if rng.random() < 0.08 and "when" in rule:
+                # a replacement the index rejects (an array of mixed types cannot be sorted): the stored rule must stay findable
+                bad = copy.deepcopy(rule)
+                bad["when"]["pattern"] = dict(bad["when"]["pattern"], **{rng.choice(gen.KEYS): rng.choice([[1, "one"], [[1], [2]], [{"a": 1}, 2]])})
+                ops.append({"op": "addRule", "loc": loc, "id": ops[-1]["id"], "rule": bad})
+                ops.append({"op": "event", "loc": "a", "event": copy.deepcopy(d)})
         elif r < 0.50:
             ops.append({"op": "remRule", "loc": loc, "id": rng.choice(RIDS)})
         elif r < 0.56:
